@@ -113,6 +113,81 @@ class Probe:
         output.u64(client.pid() if client.pid() is not None else 0xFFFFFFFFFFFFFFFF)
 
 
+# ---------------------------------------------------------------------------------------------------------------
+# the advertised station answered by a DIFFERENT server.  The authentication server follows the protocol (its tickets are
+# for the secure server, under the secure server's key), but whoever listens at the station it advertises is not the
+# secure server: a server without any Kerberos key (the library's own keyless server acknowledges the CONNECT with an
+# empty response), a server with another key (cannot read the ticket: the library's own server stays silent), a keyless
+# server that answers something anyway (it cannot know the connection check), or a server that reads the request but
+# echoes a wrong / wrongly shaped check value.  None of them proves knowledge of the session key with `check + 1`, so the
+# login must not yield a connection.  `case["station"]` names the variant; the genuine secure server keeps running at
+# GENUINE_HOST (nobody is sent there).
+GENUINE_HOST, GENUINE_PORT = "10.0.0.7", 60020
+STATION_KEYLESS = ["no-key", "other-key", "keyless-zeros8", "keyless-guess", "keyless-echo-request", "keyless-4-bytes"]
+STATION_KEYED = ["echo-check", "check+2", "check-inverted", "check-high-bit", "len-field-8", "len-field-0", "only-check",
+                 "trailing-bytes", "swapped-fields", "truncated-7", "keyed-empty", "big-endian"]
+STATION_VARIANTS = STATION_KEYLESS + STATION_KEYED
+
+
+class RogueKey(bytes):
+    """marks the PRUDPServerStream of the server that answers in the secure server's place (empty = it holds no key)"""
+
+
+def station_key(variant):
+    if variant == "no-key": return None                       # the library's own keyless server
+    if variant == "other-key": return OTHER_KEY               # the library's own server under another key
+    return RogueKey(b"" if variant in STATION_KEYLESS else SECURE_KEY)
+
+
+def rogue_answer(variant, right, request, rng):
+    """the CONNECT/ACK payload of the rogue; `right` = what the genuine server would answer (keyed rogues only)"""
+    M = 0xFFFFFFFF
+    if variant == "keyless-zeros8": return bytes(8)
+    if variant == "keyless-guess": return struct.pack("<II", 4, rng.getrandbits(32))
+    if variant == "keyless-echo-request": return bytes(request[:8])
+    if variant == "keyless-4-bytes": return struct.pack("<I", 4)
+    n = struct.unpack("<II", right)[1]                        # check + 1
+    ans = {"echo-check": struct.pack("<II", 4, (n - 1) & M), "check+2": struct.pack("<II", 4, (n + 1) & M),
+           "check-inverted": struct.pack("<II", 4, n ^ M), "check-high-bit": struct.pack("<II", 4, n ^ 0x80000000),
+           "len-field-8": struct.pack("<II", 8, n), "len-field-0": struct.pack("<II", 0, n), "only-check": struct.pack("<I", n),
+           "trailing-bytes": right + bytes(4), "swapped-fields": struct.pack("<II", n, 4), "truncated-7": right[:7],
+           "keyed-empty": b"", "big-endian": struct.pack("<I", 4) + struct.pack(">I", n)}[variant]
+    if ans == right: ans = ans[:4] + bytes([ans[4] ^ 1]) + ans[5:]      # (a palindrome / check + 1 = 4): still a wrong value
+    return ans
+
+
+def install_rogue(obs, variant, rng):
+    """wrap PRUDPServerStream.process_login_request for the stream servers marked by a RogueKey; returns the undo function"""
+    orig = prudp.PRUDPServerStream.process_login_request
+    def plr(self, data, client, login=True):
+        if not isinstance(self.key, RogueKey): return orig(self, data, client, login)
+        right = orig(self, data, client, login) if len(self.key) else b""
+        ans = rogue_answer(variant, right, data, rng)
+        obs["rogue_answers"].append(ans.hex())
+        return ans
+    prudp.PRUDPServerStream.process_login_request = plr
+    def undo(): prudp.PRUDPServerStream.process_login_request = orig
+    return undo
+
+
+def install_response_recorder(obs):
+    """record every call of PRUDPClient.check_connection_response (the client's verdict on a CONNECT/ACK payload)"""
+    orig = prudp.PRUDPClient.check_connection_response
+    def ccr(self, data):
+        rec = {"cred": self.credentials is not None, "check": self.connection_check, "data": bytes(data).hex()}
+        obs["responses"].append(rec)
+        try:
+            r = orig(self, data)
+        except Exception as e:
+            rec["result"] = "err " + exc_name(e)[4:]
+            raise
+        rec["result"] = "ok"
+        return r
+    prudp.PRUDPClient.check_connection_response = ccr
+    def undo(): prudp.PRUDPClient.check_connection_response = orig
+    return undo
+
+
 def build_tickets(c, s, rng, now):
     """the authentication server's side of Kerberos for this case"""
     pid = c["pid"]
@@ -243,7 +318,9 @@ def make_auth_server_dyn(version, resolve):
 
 def run_case(c):
     """returns the observation dict for one configuration"""
-    obs = {"calls": [], "extra": [], "attempts": [], "accepts": [], "handler_pids": [], "client_pid": None, "probe": None, "error": None, "keys": []}
+    obs = {"calls": [], "extra": [], "attempts": [], "accepts": [], "handler_pids": [], "client_pid": None, "probe": None, "error": None, "keys": [],
+           "entered": False, "responses": [], "rogue_accepts": [], "rogue_answers": []}
+    variant = c.get("station")             # the advertised station is answered by a different server (see STATION_VARIANTS)
     with Sim(c.get("seed", 0)) as sim:
         sim.install_factories()
         apply_draws(sim, c.get("draws"))
@@ -271,7 +348,7 @@ def run_case(c):
             def wrapped(self, handler, port, type=10, key=None, _orig=orig, **kw):
                 async def h(client):
                     if key is not None:
-                        obs["accepts"].append((self.local_address() if hasattr(self, "local_address") else None, port, client.pid()))
+                        obs["rogue_accepts" if isinstance(key, RogueKey) else "accepts"].append((self.local_address() if hasattr(self, "local_address") else None, port, client.pid()))
                     await handler(client)
                 return _orig(self, h, port, type, key, **kw)
             saved.append((cls, orig)); cls.serve = wrapped
@@ -285,13 +362,17 @@ def run_case(c):
 
         async def main():
             async with contextlib.AsyncExitStack() as stack:
+                # who listens at the advertised station: the secure server, or (case["station"]) somebody else while the secure server lives elsewhere
+                there = dict(key=SECURE_KEY) if variant is None else ({} if station_key(variant) is None else dict(key=station_key(variant)))
+                if variant is not None:
+                    await stack.enter_async_context(rmc.serve(s, [probe], GENUINE_HOST, GENUINE_PORT, vport=1, key=SECURE_KEY))
                 if placeholder:
                     transport = await stack.enter_async_context(prudp.serve_transport(s, AUTH_HOST, AUTH_PORT))
                     await stack.enter_async_context(rmc.serve_on_transport(s, [auth], transport, 1))
-                    await stack.enter_async_context(rmc.serve_on_transport(s, [probe], transport, sid, key=SECURE_KEY))
+                    await stack.enter_async_context(rmc.serve_on_transport(s, [probe], transport, sid, **there))
                 else:
                     await stack.enter_async_context(rmc.serve(s, [auth], AUTH_HOST, AUTH_PORT))
-                    await stack.enter_async_context(rmc.serve(s, [probe], SECURE_HOST, SECURE_PORT, vport=sid, key=SECURE_KEY))
+                    await stack.enter_async_context(rmc.serve(s, [probe], SECURE_HOST, SECURE_PORT, vport=sid, **there))
                 async with backend.connect(s, AUTH_HOST, AUTH_PORT) as be:
                     kwargs = {}
                     if c.get("password") is not None: kwargs["password"] = c["password"]
@@ -300,6 +381,8 @@ def run_case(c):
                         info.token = "tok"; info.ngs_version = 3; info.token_type = 1; info.server_version = 0
                         kwargs["auth_info"] = info
                     async with be.login(c["username"], **kwargs) as sc:
+                        obs["entered"] = True            # login yielded a connection
+                        obs["yielded_at"] = sim.now()
                         obs["client_pid"] = sc.pid()
                         data = await sc.request(PROBE_PROTOCOL, 1, b"")
                         obs["probe"] = struct.unpack("<Q", data)[0]
@@ -310,6 +393,8 @@ def run_case(c):
             obs["keys"].append(bytes(key).hex())
             return orig_decrypt(cls, data, key, settings)
         kerberos.ClientTicket.decrypt = classmethod(decrypt_rec)
+        undo = [install_response_recorder(obs)]
+        if variant is not None: undo.append(install_rogue(obs, variant, sim.rng))
         try:
             sim.run(main())
         except BaseException as e:
@@ -320,6 +405,7 @@ def run_case(c):
             backend.rmc.connect = orig_connect
             kerberos.ClientTicket.decrypt = classmethod(orig_decrypt)
             for cls, orig in saved: cls.serve = orig
+            for u in reversed(undo): u()
         obs["vtime"] = sim.now()
         if c.get("draws"): obs["draws_made"] = draws_made(sim)
     return obs
